@@ -87,6 +87,46 @@ def fold(node, env=None, resolver=None):
             return _BIN[type(node.op)](a, b)
         except Exception:
             raise NoFold()
+    if isinstance(node, ast.Compare):
+        left = fold(node.left, env, resolver)
+        res = True
+        for op, comp in zip(node.ops, node.comparators):
+            right = fold(comp, env, resolver)
+            try:
+                if isinstance(op, ast.Eq):
+                    r = left == right
+                elif isinstance(op, ast.NotEq):
+                    r = left != right
+                elif isinstance(op, ast.Lt):
+                    r = left < right
+                elif isinstance(op, ast.LtE):
+                    r = left <= right
+                elif isinstance(op, ast.Gt):
+                    r = left > right
+                elif isinstance(op, ast.GtE):
+                    r = left >= right
+                elif isinstance(op, ast.Is):
+                    r = left is right
+                elif isinstance(op, ast.IsNot):
+                    r = left is not right
+                else:
+                    raise NoFold()
+            except TypeError:
+                raise NoFold()
+            res = res and r
+            left = right
+        return res
+    if isinstance(node, ast.BoolOp):
+        vals = [fold(v, env, resolver) for v in node.values]
+        if isinstance(node.op, ast.And):
+            out = True
+            for v in vals:
+                out = out and v
+            return out
+        out = False
+        for v in vals:
+            out = out or v
+        return out
     if isinstance(node, (ast.Tuple, ast.List)):
         return tuple(fold(e, env, resolver) for e in node.elts)
     if isinstance(node, ast.Set):
